@@ -178,6 +178,8 @@ def run(o, ctx, tier, seed, replay=None):
             for a in list(range(0, head_len + 3)) + list(range(head_len + 3, head_len + n + 1, step)) + [head_len + n]:
                 sweep.append(base + " accept=%d" % a)
         lines = lines + sweep
+        # messages kept by the coverage- and behaviour-guided generator (header operations x entry points x body sizes x framing)
+        lines = lines + fuzz_cases(o, ctx, "print", tier, seed)
     known = 0
     impl, model = diff_run(o, ctx, lines, nontrivial=lambda c, a: "bodyrep" in c or "pieces=-" not in c or "accept" in c,
                            tags=lambda c, a: fields_of(c)["entry"] + ":" + ("ERR" if a.startswith("ERR") else "ok"))
